@@ -10,7 +10,10 @@ import (
 
 // Op is one call on the Modules value of a history.
 type Op struct {
-	Op   string `json:"op"` // load | process | getmodule (Name = module name) | read | walk
+	// load | process | getmodule (Name = module name) | read | walk, and in file histories (genfile.go)
+	// readfile (ms.Read(Name): a path or a module name) | addpath (ms.AddPath(Name)) | putfile (the file
+	// Name with Text appears in the directory tree; not a call on the value)
+	Op   string `json:"op"`
 	Name string `json:"name,omitempty"`
 	Text string `json:"text,omitempty"`
 	// Fault names the fault planted in a bad text ("" for a good text):
@@ -32,10 +35,27 @@ type History struct {
 	// ReadsEverywhere: the read battery (readsOf) is put to the one value and to its shadow after
 	// EVERY operation, not only after refused loads and walks
 	ReadsEverywhere bool `json:"reads_everywhere,omitempty"`
+	// Files: a FILE history - the worker builds this directory tree, makes it its working directory
+	// and the history may Read from it, extend the search path and let Process / GetModule find
+	// imports and includes through the search path (Mode is "files")
+	Files []FileSpec `json:"files,omitempty"`
 }
+
+// FileSpec is one file (or, with Dir, one empty directory) of the tree of a file history; Path is
+// relative to the root of the tree.
+type FileSpec struct {
+	Path string `json:"path"`
+	Text string `json:"text,omitempty"`
+	Dir  bool   `json:"dir,omitempty"`
+}
+
+func (h History) fileMode() bool { return h.Mode == "files" }
 
 func (h History) key() string {
 	var sb strings.Builder
+	for _, f := range h.Files {
+		sb.WriteString(f.Path + "\x00" + f.Text + "\x02")
+	}
 	for _, o := range h.Ops {
 		sb.WriteString(o.Op + "\x00" + o.Name + "\x00" + o.Text + "\x00" + o.Key + "\x00" + o.Path + "\x01")
 	}
